@@ -50,7 +50,12 @@ class Tseitin(SHarness):
 
     def build(self, p):
         from cnfgen.families.tseitin import TseitinFormula
-        ch = None if p['charges'] is None else [bool(c) for c in p['charges']]
+        # charges are documented to be cast with bool(): pass 0/1, other integers, bools and a tuple
+        ch = p['charges']
+        if ch is not None:
+            ch = [(c if not c else [1, True, 3, -1, 2][(i + len(ch)) % 5]) for i, c in enumerate(ch)]
+            if len(ch) % 2:
+                ch = tuple(ch)
         return TseitinFormula(mk_graph(p), ch, formula_class=_cls(p))
 
     @property
